@@ -95,6 +95,7 @@ func main() {
 	req := []string{"From Lib Require Import SymCrypto.", "From Model Require Import C18_Requests."}
 	c.Family("consts", req, "consts_case_ok", 10)
 	c.Family("unsigned", req, "unsigned_case_ok", 400)
+	c.Family("unsignedbig", req, "unsigned_case_ok", 1)
 	c.Family("make", req, "make_case_ok", 150)
 	c.Family("read", req, "read_case_ok", 150)
 	// hdr[2] is filled with the shared byte-string definitions just before Finish
